@@ -144,6 +144,7 @@ RefRets(c) ==
                               u \in RefUnionChoices(c.call), s \in RefAnyChoices(c.call)} \ {0}}
 
 \* The property as a predicate on a result r (modelled or observed); "ok" or the violated clause.
+\*   Raised              (observations only) the checker raised instead of giving a verdict
 \*   Verdict             diagnosed exactly when not accepted
 \*   FirstMatch          no Any, no union: the type is the first accepting overload's return type
 \*   UnionContains       one union argument: the type contains each member's own result type
@@ -153,7 +154,8 @@ RefClause(c, r) ==
     LET acc == RefAccepted(c)
         hasAny == AnyPos(c.call) # {}
         hasUnion == UnionPos(c.call) # {}
-    IN IF (r.st = "ok") # acc THEN "Verdict"
+    IN IF r.st \notin {"ok", "err"} THEN "Raised"          \* the checker raised an exception instead of giving a verdict
+       ELSE IF (r.st = "ok") # acc THEN "Verdict"
        ELSE IF ~acc THEN "ok"
        ELSE IF hasAny THEN (IF r.anyk # "" \/ RefRets(c) \subseteq Range(r.ty) THEN "ok" ELSE "AnyNeverSelectsOne")
        ELSE IF hasUnion THEN (IF r.anyk = "" /\ RefRets(c) \subseteq Range(r.ty) THEN "ok" ELSE "UnionContains")
